@@ -114,6 +114,7 @@ class Collector:
         self.replay_mode = replay_mode
         self.replay_hits = []      # in replay mode: every signature seen
         self.enumerated = 0
+        self.nontrivial_count = 0   # enumerated cases that are distinct by construction (not stored as keys)
         self.exhaustive = None
         self.notes = []
         self.config = None
@@ -195,7 +196,7 @@ class Collector:
         return {'evaluations': self.evaluations, 'nontrivial': sorted(self.nontrivial),
                 'classes': dict(self.classes), 'samples': self.samples, 'known': self.known,
                 'excluded': dict(self.excluded), 'violations': self.violations,
-                'enumerated': self.enumerated, 'exhaustive': self.exhaustive, 'notes': self.notes,
+                'enumerated': self.enumerated, 'nontrivial_count': self.nontrivial_count, 'exhaustive': self.exhaustive, 'notes': self.notes,
                 'other_sigs': dict(self.other_sigs)}
 
 
@@ -361,8 +362,10 @@ def run_check(prop, tier, seed):
     known = {}
     violations = {}
     enumerated = 0
+    nontrivial_count = 0
     exhaustive = None
     for r in results:
+        nontrivial_count += r.get('nontrivial_count', 0)
         nontrivial.update(r['nontrivial'])
         classes.update(r['classes'])
         excluded.update(r['excluded'])
@@ -444,7 +447,7 @@ def run_check(prop, tier, seed):
     wall = time.time() - t0
     coverage = {
         'evaluations': int(evaluations),
-        'distinct_nontrivial': len(nontrivial),
+        'distinct_nontrivial': len(nontrivial) + int(nontrivial_count),
         'rule': mod.RULE,
         'samples': samples,
         'classes': dict(sorted(classes.items(), key=lambda kv: (-kv[1], kv[0]))[:120]),
@@ -478,14 +481,14 @@ def run_check(prop, tier, seed):
 
     # vacuity guard: classes the property names must have been produced
     missing = [c for c in getattr(mod, 'REQUIRED_CLASSES', {}).get(tier, []) if classes.get(c, 0) == 0]
-    print(f"{prop} tier={tier} seed={seed} evaluations={evaluations} distinct_nontrivial={len(nontrivial)} "
+    print(f"{prop} tier={tier} seed={seed} evaluations={evaluations} distinct_nontrivial={len(nontrivial) + int(nontrivial_count)} "
           f"violations={len(vio_out)} known={sum(k['count'] for k in known.values())} wall={wall:.1f}s")
     if vio_out:
         return 1
     if missing:
         print(f"HARNESS-ERROR property={prop} generator never produced required classes: {missing}")
         return 2
-    if len(nontrivial) < 2:
+    if len(nontrivial) + nontrivial_count < 2:
         print(f"HARNESS-ERROR property={prop} fewer than two non-trivial cases")
         return 2
     return 0
